@@ -137,10 +137,11 @@ def pWinCase : P WinCase := do
   let headers ← bool
   let enforce ← bool
   let hasCallback ← bool
+  let atomic ← bool
   let reqs ← list (do let key ← str; let now ← nat; pure ({ key, now } : WinReq))
   let sched ← list pOp
   let retries ← list (pair nat nat)
-  pure { cfg := { limit, W, headers, enforce, hasCallback }, reqs, sched, retries }
+  pure { cfg := { limit, W, headers, enforce, hasCallback, atomic }, reqs, sched, retries }
 
 def pWinObs : P (Nat × WinObs) := do
   let i ← nat
@@ -157,11 +158,12 @@ def showWinObs (a : Nat × WinObs) : String :=
 
 def winLimitText (cfg : WinCfg) : Bytes := (Nat.repr cfg.limit).toList ++ ";w=".toList ++ (Nat.repr cfg.W).toList
 
-/-- the known-finding classes of the sliding window, stated on the *input*: a case that asks for a
-    retry after Retry-After (K16b, truthfulness) and a schedule that is not serial (K16b, race) -/
+/-- the known-finding class of the sliding window, stated on the *input*: a store that only has the
+    two-call interface driven by a schedule that is not serial (K16b, the race inherent to
+    `GetCounts`-then-`Incr`). A store with the one-call interface has no such class: every schedule is
+    judged. -/
 def winClass (c : WinCase) : String :=
-  if !c.retries.isEmpty then "window-retry"
-  else if c.sched != serial c.reqs.length then "window-race"
+  if !c.cfg.atomic && c.sched != serial c.reqs.length then "window-race"
   else "-"
 
 def winVerdict (id : String) (c : WinCase) (obs : List (Nat × WinObs)) : String :=
